@@ -22,7 +22,7 @@ def sig(c):
     if c.get("fam") == "e2e":
         return "c22:e2e:%s:%s" % (c.get("role"), c.get("move"))
     if stale_message(c):
-        return "c22:retransmits-stale-message-after-premature-otb"
+        return "c22:retransmitter-gets-non-otb-message"
     return "c22:fsm:%s" % c.get("role")
 
 
